@@ -140,6 +140,14 @@ def _gen_step(ci, dom, nfiles, script=None):
                 if w.stack:
                     return {"t": "exit"}
                 continue
+            if kind == "exit_fault":
+                if w.stack:
+                    return {"t": "exit", "fault_k": r}
+                continue
+            if kind == "enter_big":
+                return {"t": "enter_cls", "h": roots[0], "cap": 10**9}
+            if kind == "setcap_tiny":
+                return {"t": "setcap", "n": 0 if w.strategy == "memory" else 1}
             if kind == "write":
                 return gen.draw_mutator(draw, w, tgt, dom, methods=["setitem"] if w.handles[tgt].kind == "dict" else ["append"], p_raise=0)
             if kind == "clear":
@@ -165,6 +173,13 @@ def _gen_step(ci, dom, nfiles, script=None):
             s = gen.draw_take(draw, w)
             if s is not None:
                 return s
+        if c == 29 and w.stack and len(roots) > 1:
+            # the user drops every reference to an object inside a class-wide context and the garbage
+            # collector runs: its buffered data still counts, is still flushed, and the size returns to 0
+            cand = [i for i in roots if w.obj_depth.get(i, 0) == 0
+                    and w.cls_depth.get(type(w.handles[i].real), 0) > 0]
+            if cand:
+                return {"t": "drop", "h": draw(st.sampled_from(cand))}
         hi = gen.pick_handle(draw, w)
         if hi is None:
             return None
@@ -251,6 +266,13 @@ def run_shard(spec, seed, tier, active):
             script = [("enter_small", 0), ("write", a), ("write", b), ("write", b), ("exit", 0),
                       (draw(st.sampled_from(["clear", "write"])), a), ("enter", 0), ("read", a),
                       ("write", a), ("exit", 0)]
+        elif pick == 2:
+            # a tiny permanent capacity, a (possibly nested) session with a large temporary one; its
+            # exit restores the tiny capacity - which forces a flush - and that flush hits an I/O
+            # error at its k-th file-system call (also AFTER the write itself)
+            script = [("setcap_tiny", 0)] + ([("enter_obj", 0)] if draw(st.booleans()) else []) + \
+                     [("enter_big", 0), ("write", 0)] + ([("write", 1)] if draw(st.booleans()) else []) + \
+                     [("exit_fault", draw(st.integers(1, 14)))]
         w = wm.run_generated(ID, ci, docs, _gen_step(ci, dom, nfiles, script), draw, max_steps,
                              engine="acctworld")
         nt, kinds = _kinds(w)
